@@ -170,6 +170,50 @@ theorem cd_at_ref (d b3 fr len : ℝ) (hf : 0 < fr) :
   field_simp
   ring
 
+/-! ### a long fibre cut into equal spans (auto-design `split_fiber`) -/
+
+/-- **cutting a fibre into `n` equal spans changes none of the accumulated figures**: the `n` sub-spans of length
+`L/n` add, together, the chromatic dispersion, PMD (in quadrature), PDL and latency of the one fibre of length `L` -/
+theorem split_span_invariant (a : Acc ℝ) (b2 b3 f fr len k : ℝ) (n : Nat) (hn : 0 < n) (hlen : 0 ≤ len)
+    (h1 : 0 ≤ a.pmd) (h2 : 0 ≤ a.pdl) :
+    accPath a (List.replicate n (fibreContribution b2 b3 f fr (len / n) k))
+      = accPath a [fibreContribution b2 b3 f fr len k] := by
+  have hn' : (n:ℝ) ≠ 0 := Nat.cast_ne_zero.2 (Nat.pos_iff_ne_zero.1 hn)
+  have hc : (cLight : ℝ) ≠ 0 := by simp only [cLight, Nat.cast_ofNat]; norm_num
+  have hn1 : (n1 : ℝ) ≠ 0 := by simp only [n1, Nat.cast_ofNat]; norm_num
+  have hdiv : 0 ≤ len / n := div_nonneg hlen (Nat.cast_nonneg n)
+  have e1 : (accPath a (List.replicate n (fibreContribution b2 b3 f fr (len / n) k))).cd
+      = (accPath a [fibreContribution b2 b3 f fr len k]).cd := by
+    rw [cd_additive, cd_additive]
+    simp only [List.map_replicate, List.sum_replicate, List.map_cons, List.map_nil, List.sum_cons, List.sum_nil,
+      fibreContribution, chromaticDispersion, nsmul_eq_mul]
+    field_simp
+    ring
+  have e2 : (accPath a (List.replicate n (fibreContribution b2 b3 f fr (len / n) k))).latency
+      = (accPath a [fibreContribution b2 b3 f fr len k]).latency := by
+    rw [latency_additive, latency_additive]
+    simp only [List.map_replicate, List.sum_replicate, List.map_cons, List.map_nil, List.sum_cons, List.sum_nil,
+      fibreContribution, latency, nsmul_eq_mul]
+    field_simp
+    ring
+  have e3 : (accPath a (List.replicate n (fibreContribution b2 b3 f fr (len / n) k))).pmd
+      = (accPath a [fibreContribution b2 b3 f fr len k]).pmd := by
+    rw [pmd_quadrature _ _ h1, pmd_quadrature _ _ h1]
+    congr 2
+    simp only [List.map_replicate, List.sum_replicate, List.map_cons, List.map_nil, List.sum_cons, List.sum_nil,
+      fibreContribution, nsmul_eq_mul, add_zero]
+    rw [fibre_pmd_sq k _ hdiv, fibre_pmd_sq k _ hlen]
+    field_simp
+  have e4 : (accPath a (List.replicate n (fibreContribution b2 b3 f fr (len / n) k))).pdl
+      = (accPath a [fibreContribution b2 b3 f fr len k]).pdl := by
+    rw [pdl_quadrature _ _ h2, pdl_quadrature _ _ h2]
+    congr 2
+    simp [List.map_replicate, List.sum_replicate, fibreContribution]
+  cases hA : accPath a (List.replicate n (fibreContribution b2 b3 f fr (len / n) k))
+  cases hB : accPath a [fibreContribution b2 b3 f fr len k]
+  simp only [hA, hB] at e1 e2 e3 e4
+  simp [e1, e2, e3, e4]
+
 /-! ### non-vacuity -/
 example : lumpedPositionsOk (80000:ℝ) [((20:ℝ), (1:ℝ)), (20, 2)] = true := by
   simp [lumpedPositionsOk]; norm_num
